@@ -62,6 +62,9 @@ type Spec struct {
 	// the downstream sender (stream layer) returns an error from these calls: "hdr" (AppendHeaders), "data", "trl"
 	SenderErr   []string     `json:"sender_err,omitempty"`
 	// built-in filter histories (builtin.go): which route the request addresses, its body length, extra request headers
+	// after this many NewStream calls (attempts) every host of the cluster fails its health check: a later host selection - the
+	// re-attempt of a retry - finds no healthy host
+	HostsGoneAfter int    `json:"hosts_gone_after,omitempty"`
 	Flavour  string            `json:"flavour,omitempty"` // "" = xprotocol-like (status read from the response headers); "http" = status read from the context variable
 	Service  string            `json:"service,omitempty"`
 	BodyLen  int               `json:"body_len,omitempty"`
